@@ -1,4 +1,61 @@
-(* C06 - placeholder until the theorems are in place. *)
-Require Import RQ.Base RQ.Target.
-Theorem C06_placeholder : True. Proof. exact I. Qed.
-Print Assumptions C06_placeholder.
+(* C06 - A layer is an isolated group composited once with its opacity and blend mode. *)
+Require Import RQ.Base RQ.F32 RQ.Rect RQ.Pixel RQ.Raster RQ.PathF RQ.Shader RQ.Surface RQ.Target RQ.TargetProofs RQ.OpsProofs RQ.ClipProofs RQ.LayerProofs.
+
+(* (1) push_layer opens an initially transparent buffer that covers exactly the clip bounds in force; the surface, the
+   outer layers, the clip stack and the transform are unchanged *)
+Theorem C06_push_layer : forall st opacity blend,
+  let st' := push_layer st opacity blend in
+  exists l, d_layers st' = l :: d_layers st /\ l_rect l = clip_bounds st /\ l_opacity l = opacity /\ l_blend l = blend /\
+    Forall (fun p => p = 0) (l_buf l) /\
+    zlen (l_buf l) = Z.max (r_w (clip_bounds st)) 0 * Z.max (r_h (clip_bounds st)) 0 /\
+    d_buf st' = d_buf st /\ d_clips st' = d_clips st /\ d_ctm st' = d_ctm st /\ d_w st' = d_w st /\ d_h st' = d_h st.
+Proof. exact push_layer_spec. Qed.
+Print Assumptions C06_push_layer.
+
+(* (2) while a layer is open every drawing call (clear included) changes only the innermost layer's buffer: the surface
+   and all outer layers, the clip stack, the transform are untouched (same_frame), and the change is nothing, the
+   unclipped clear, or one composite whose destination is that layer *)
+Theorem C06_drawing_targets_innermost_layer : forall st o st',
+  d_probe st = 0 -> drawing_op o = true -> step_op st o = Ok st' -> same_frame st st' /\ effect st st'.
+Proof. exact (fun st o st' Hp Hd H => conj (effect_same_frame st st' Hp (drawing_op_effect st o st' Hd H)) (drawing_op_effect st o st' Hd H)). Qed.
+Print Assumptions C06_drawing_targets_innermost_layer.
+
+(* (3) pop_layer composites the layer ONCE onto what lies below it: the layer's pixels, placed at the layer's origin,
+   through a constant coverage equal to the opacity byte, with the layer's blend mode, restricted to the layer's
+   rectangle and (inside composite) to the clip current at pop time; under the identity, the transform restored.
+   With C03_composite_pixel_formula this gives every pixel's value after the pop. *)
+Theorem C06_pop_is_one_composite : forall st st', pop_layer st = Ok st' ->
+  exists l rest st2, (d_layers st = l :: rest) /\
+    (composite (with_ctm (with_layers st rest) xf_identity)
+              (Image (mk_image (r_w (l_rect l)) (r_h (l_rect l)) (l_buf l)) ExtPad Nearest
+                     (xf_translation (of_int (- x0 (l_rect l))) (of_int (- y0 (l_rect l)))))
+              (Some (repeat (unit_to_u8 (l_opacity l)) (Z.to_nat (d_w st * d_h st)))) (surface_rect st) (l_rect l) (l_blend l) f1 = Ok st2) /\
+    (st' = with_ctm st2 (d_ctm st)).
+Proof. exact pop_layer_is_one_composite. Qed.
+Print Assumptions C06_pop_is_one_composite.
+
+(* (4) push/pop leave the transform and the clip stack as they found them; the layers below the popped one and the
+   surface under them are untouched *)
+Theorem C06_pop_preserves : forall st st', d_probe st = 0 -> pop_layer st = Ok st' ->
+  d_ctm st' = d_ctm st /\ d_clips st' = d_clips st /\ d_w st' = d_w st /\ d_h st' = d_h st /\
+  d_layers st' = match tl (d_layers st) with [] => [] | _ => d_layers st' end /\
+  tl (d_layers st') = tl (tl (d_layers st)) /\ (tl (d_layers st) <> [] -> d_buf st' = d_buf st).
+Proof. exact pop_restores_transform_and_clips. Qed.
+Print Assumptions C06_pop_preserves.
+
+(* (5) a layer pushed under an empty clip is empty and harmless: popping it only removes it *)
+Theorem C06_empty_layer_harmless : forall st l rest, d_layers st = l :: rest -> r_empty (l_rect l) = true ->
+  pop_layer st = Ok (with_ctm (with_ctm (with_layers st rest) xf_identity) (d_ctm st)).
+Proof. exact empty_layer_is_harmless. Qed.
+Print Assumptions C06_empty_layer_harmless.
+
+(* non-vacuity: two overlapping opaque squares in a half-opacity layer share one opacity *)
+Example C06_example :
+  let white := Solid 4294967295 in
+  let o := mk_opts SrcOver f1 true in
+  match run_ops (dt_new 3 1 [0; 0; 0])
+          [OpPushLayer fhalf SrcOver; OpFillRect f0 f0 (of_int 2) f1 white o; OpFillRect f1 f0 (of_int 2) f1 white o; OpPopLayer] with
+  | Ok st => d_buf st = [2155905152; 2155905152; 2155905152]
+  | Err _ => False
+  end.
+Proof. vm_compute. reflexivity. Qed.
